@@ -63,6 +63,7 @@ class PyInterp:
         self.unwind_violation = z3.BoolVal(False)
         self.returned = z3.BoolVal(False)
         self.retval = None
+        self.loops = []                         # innermost last: {'broken': cond, 'continued': cond}
         self._fresh = itertools.count()
 
     def fresh(self, sort):
@@ -96,9 +97,15 @@ class PyInterp:
         return self.retval
 
     # ---- statements
+    def alive(self, pc):
+        g = z3.And(pc, z3.Not(self.returned))
+        for l in self.loops:
+            g = z3.And(g, z3.Not(l['broken']), z3.Not(l['continued']))
+        return z3.simplify(g)
+
     def block(self, stmts, pc):
         for st in stmts:
-            g = z3.simplify(z3.And(pc, z3.Not(self.returned)))
+            g = self.alive(pc)
             if z3.is_false(g):
                 return
             self.stmt(st, g)
@@ -305,24 +312,47 @@ class PyInterp:
                 raise NotEncoded('long loop')
             if not isinstance(st.target, ast.Name) or st.orelse:
                 raise NotEncoded('loop form')
-            for k in rng:
-                g = z3.simplify(z3.And(pc, z3.Not(self.returned)))
-                if z3.is_false(g):
-                    break
-                self.bind(st.target.id, self.sem.int_lit(k), g)
-                self.block(st.body, g)
+            rec = {'broken': z3.BoolVal(False), 'continued': z3.BoolVal(False)}
+            self.loops.append(rec)
+            try:
+                for k in rng:
+                    rec['continued'] = z3.BoolVal(False)
+                    g = self.alive(pc)
+                    if z3.is_false(g):
+                        break
+                    self.bind(st.target.id, self.sem.int_lit(k), g)
+                    self.block(st.body, g)
+            finally:
+                self.loops.pop()
             return
         if isinstance(st, ast.While):
+            rec = {'broken': z3.BoolVal(False), 'continued': z3.BoolVal(False)}
+            self.loops.append(rec)
             g = pc
-            for _ in range(self.unwind):
-                c = self.truth(self.ev(st.test, g))
-                g = z3.simplify(z3.And(g, c, z3.Not(self.returned)))
-                if z3.is_false(g):
-                    break
-                self.block(st.body, g)
-            else:
-                c = self.truth(self.ev(st.test, g))
-                self.unwind_violation = z3.Or(self.unwind_violation, z3.And(g, c, z3.Not(self.returned)))
+            try:
+                for _ in range(self.unwind):
+                    rec['continued'] = z3.BoolVal(False)
+                    c = self.truth(self.ev(st.test, g))
+                    g = self.alive(z3.And(g, c))
+                    if z3.is_false(g):
+                        break
+                    self.block(st.body, g)
+                else:
+                    rec['continued'] = z3.BoolVal(False)
+                    c = self.truth(self.ev(st.test, g))
+                    self.unwind_violation = z3.Or(self.unwind_violation, self.alive(z3.And(g, c)))
+            finally:
+                self.loops.pop()
+            return
+        if isinstance(st, ast.Break):
+            if not self.loops:
+                raise NotEncoded('break outside loop')
+            self.loops[-1]['broken'] = z3.Or(self.loops[-1]['broken'], pc)
+            return
+        if isinstance(st, ast.Continue):
+            if not self.loops:
+                raise NotEncoded('continue outside loop')
+            self.loops[-1]['continued'] = z3.Or(self.loops[-1]['continued'], pc)
             return
         if isinstance(st, ast.Return):
             if st.value is None:
